@@ -218,7 +218,47 @@ func opFiles(c Case, r Result) {
 	r["snapshot"] = snap
 }
 
+// hist: compile the source twice; run the first program on every text, then again in reverse
+// order, then the second program; all three result lists must be identical (C13: runs and
+// compilations are independent).
+func opHist(c Case, r Result) {
+	src := bytesArg(c, "src")
+	cp1 := compileSrc(src, r)
+	if cp1 == nil {
+		return
+	}
+	r2 := Result{}
+	cp2 := compileSrc(src, r2)
+	if cp2 == nil {
+		r["second_compile_failed"] = true
+		return
+	}
+	r["bc2"] = r2["bc"]
+	texts := []string{}
+	for _, t := range c["texts_hex"].([]any) {
+		b, _ := hex.DecodeString(t.(string))
+		texts = append(texts, string(b))
+	}
+	first := make([]string, len(texts))
+	again := make([]string, len(texts))
+	other := make([]string, len(texts))
+	for i, t := range texts {
+		first[i] = matchesSexp(engine.Run(cp1.bc, t))
+	}
+	for i := len(texts) - 1; i >= 0; i-- {
+		again[i] = matchesSexp(engine.Run(cp1.bc, texts[i]))
+	}
+	for i, t := range texts {
+		other[i] = matchesSexp(engine.Run(cp2.bc, t))
+	}
+	r["first"] = first
+	r["again"] = again
+	r["other"] = other
+	r["bc_after"] = bcSexp(cp1.bc)
+}
+
 var ops = map[string]func(Case, Result){
+	"hist":  opHist,
 	"e2e":   opE2E,
 	"files": opFiles,
 }
